@@ -469,6 +469,10 @@ def triage16(ctx, entry, symptom, label, what, replay, feats=()):
     ctx.violation(('C16', entry, symptom), '%s via %s [%s] %s' % (symptom, entry, label, what), replay)
 
 
+KEEP_NAME = 'NOTES.keep'
+KEEP_DATA = b'not generated; must survive a compile into this directory\n'
+
+
 def c16(ctx):
     from . import hostile, checks_format
     quick = ctx.tier == 'quick'
@@ -603,7 +607,7 @@ def c16(ctx):
         for sub in subs:
             for word in (False, True):
                 jn += 1
-                jobs.append((jn, p, text, sub, word, r2.choice(['rel', 'abs', 'nested', 'space', 'subcmd'])))
+                jobs.append((jn, p, text, sub, word, r2.choice(['rel', 'abs', 'nested', 'space', 'subcmd', 'dirty', 'dirty'])))
     expect = {}
     for p in protos:
         text = dslprint.render(p)
@@ -627,9 +631,21 @@ def c16(ctx):
         dirs = {}
         for l in sub:
             name = {'rel': 'out_%s' % l, 'abs': os.path.join(wd, 'abs_%s' % l), 'nested': 'a/b c/%s/deep' % l, 'space': 'dir with space %s' % l,
-                    'subcmd': {0: 'format', 1: 'compile', 2: 'help'}.get(sub.index(l), 'completion_%s' % l)}[shape]
+                    'subcmd': {0: 'format', 1: 'compile', 2: 'help'}.get(sub.index(l), 'completion_%s' % l), 'dirty': 'used_%s' % l}[shape]
             dirs[l] = name
             args += [FLAGS[l], name]
+            if shape == 'dirty':
+                # the directory was used before: every file of the new file set already exists with other, LONGER content (an
+                # earlier, larger revision of the protocol), next to a file of the user's that is none of the compiler's business
+                er0 = expect[p.tag][tuple(sub)]
+                for fn, data in er0['files'].get(l, {}).items():
+                    fp = os.path.join(wd, name, fn)
+                    os.makedirs(os.path.dirname(fp), exist_ok=True)
+                    with open(fp, 'wb') as f:
+                        f.write(b'// stale head\n' + data[::-1] + b'\n// stale tail of an earlier, longer revision\n' * 8)
+                os.makedirs(os.path.join(wd, name), exist_ok=True)
+                with open(os.path.join(wd, name, KEEP_NAME), 'wb') as f:
+                    f.write(KEEP_DATA)
         rc, out = run_cli(ctx, args, wd)
         trees = {}
         for l, name in dirs.items():
@@ -646,6 +662,7 @@ def c16(ctx):
     for (jn_, p, text, sub, word, shape), rc, out, trees, allfiles, dirs in comp:
         er = expected(p, text, sub)
         ctx.evaluated(1, key=(p.tag, tuple(sub), word, shape))
+        ctx.counters['compile-path-shape:' + shape] += 1
         rep = {'dsl': text, 'flags': sub, 'with_word_compile': word, 'path_shape': shape, 'exit_status': rc, 'output': out.decode('utf-8', 'replace')[-800:]}
         gen_failed = [l for l in sub if l not in er['files']]
         if gen_failed:
@@ -661,6 +678,12 @@ def c16(ctx):
             want = er['files'][l]
             got = trees[l]
             name = dirs[l]
+            if shape == 'dirty' and got is not None:
+                got = dict(got)
+                kept = got.pop(KEEP_NAME, None)
+                expected_files.add(os.path.normpath(os.path.join(name, KEEP_NAME)))
+                if kept != KEEP_DATA:
+                    triage16(ctx, 'compile', 'foreign-file-touched', 'compile', 'a file of the user\'s in the %s output directory was %s' % (l, 'removed' if kept is None else 'rewritten'), rep)
             base = name if not os.path.isabs(name) else os.path.relpath(name, os.path.dirname(name.rstrip('/')) if False else os.path.join(ctx.scr.dir, 'c16c', 'j%d' % jn_))
             for fn in want:
                 expected_files.add(os.path.normpath(os.path.join(base, fn)))
